@@ -1,3 +1,4 @@
+import BpModel.Model.Parse
 import BpModel.Model.Front
 import BpModel.Proofs.BridgeTables
 /-!
@@ -78,5 +79,21 @@ theorem C08_field_number_boundaries :
     verdict (numbered 1 255) = "accept" ∧ verdict (numbered 1 256) = "invalid-field-number" ∧
     verdict (numbered 0 2) = "invalid-field-number" ∧ verdict (numbered 7 7) = "duplicate-field-number" := by
   decide +kernel
+
+/-! ### the text-level pipeline (`Lex.lex → Parse.parseText → checkProgram`), evaluated on boundary texts.
+These are evaluations (tests of the model by the kernel), not unbounded claims; the unbounded tie of
+this pipeline to the real compiler is the text-level correspondence (`tools/props_text.py`). -/
+theorem C08_text_examples :
+    Parse.textVerdict "proto a\nmessage M { uint3 x = 1 }\n" = "accept" ∧
+    Parse.textVerdict "proto a\nmessage M {\n  uint65 x = 1\n}\n" = "invalid-uint-width@3" ∧
+    Parse.textVerdict "proto a\nmessage M {\n  uint3 x = 1 // c" = "syntax@0" ∧              -- a comment needs its newline
+    Parse.textVerdict "proto a\nmessage M\n{ }\n" = "syntax@2" ∧                             -- a header cannot span lines
+    Parse.textVerdict "proto a\nmessage M { uint3 x = 0x1 }\n" = "syntax@2" ∧                 -- field numbers are decimal
+    Parse.textVerdict "proto a\nconst A = 2 * (3 + 4)\nmessage M { byte[A] b = 255 }\n" = "accept" ∧
+    Parse.textVerdict "proto a\nconst A = 1 / 0\n" = "division-by-zero@2" ∧
+    Parse.textVerdict "proto a\nenum E : uint2 { A = 0; B = 4 }\n" = "enum-value-overflow@2" ∧
+    Parse.textVerdict "message M { }\n" = "proto-name-undefined@0" ∧
+    Parse.textVerdict "proto a\nmessage M { bool type = 1 }\n" = "accept" := by
+  refine ⟨?_, ?_, ?_, ?_, ?_, ?_, ?_, ?_, ?_, ?_⟩ <;> decide +kernel
 
 end Bp.C08
